@@ -83,7 +83,13 @@ pub struct Built {
 pub fn build(spec: &ProgSpec) -> Result<Built, String> {
     let program = spec.build()?;
     let model = foreign::model_of(&program)?;
-    let reference = vm::serialize_to_vec(&program)?;
+    // A program that exists and fits the format's limits must be writable to the most benign sink there is. (A pool beyond the
+    // u16 count is the one legitimate refusal.)
+    let reference = match vm::serialize_to_vec(&program) {
+        Ok(b) => b,
+        Err(e) if model.consts.len() <= 65_535 => return Err(format!("SAVE-FAILS-ON-MEMORY-SINK: {}", e)),
+        Err(e) => return Err(e),
+    };
     let compiler_output = matches!(spec, ProgSpec::Stmts(_) | ProgSpec::Source(_));
     // images from the corpus are programs too; direct models carry arbitrary code and are never run
     let runnable = !matches!(spec, ProgSpec::Model(_));
@@ -245,7 +251,11 @@ fn describe_model_difference(a: &FModel, b: &FModel) -> String {
 }
 
 pub fn replay_case(case: &CycleCase) -> Result<Option<(String, String)>, String> {
-    let b = build(&case.spec)?;
+    let b = match build(&case.spec) {
+        Ok(b) => b,
+        Err(e) if e.starts_with("SAVE-FAILS-ON-MEMORY-SINK") => return Ok(Some(("S0:save_fails_on_benign_disk".into(), first_line(&e, 200)))),
+        Err(e) => return Err(e),
+    };
     Ok(run_cycle(case, &b, &mut Probe::default()))
 }
 
@@ -364,6 +374,12 @@ fn exercise(which: Which, name: &str, spec: &ProgSpec, rng: &mut Rng, random_pla
     let mut out = Out1 { evaluations: 0, distinct: vec![], counters: vec![], violations: vec![], sample: None, skipped: None };
     let b = match build(spec) {
         Ok(b) => b,
+        Err(e) if e.starts_with("SAVE-FAILS-ON-MEMORY-SINK") => {
+            out.evaluations += 1;
+            out.violations.push((CycleCase { which, spec: spec.clone(), wstack: Stack::Raw, wplan: WritePlan::clean(), writer: "fml", rstack: ReadStack::Raw, rplan: ReadPlan::clean(), execute: false, nointern: None },
+                "S0:save_fails_on_benign_disk".into(), first_line(&e, 200)));
+            return out;
+        }
         Err(e) => {
             out.skipped = Some(format!("{}: {}", name, first_line(&e, 100)));
             return out;
